@@ -192,6 +192,51 @@ CLAIMS = {
 NA_REASON = "not built yet in this round: model, theorems and correspondence stream are planned in DESIGN.md section 6 and will be claimed when they run"
 
 props = [json.loads(l) for l in open(V / "properties.jsonl")]
+
+# ---- second build session: additions to the claims (appended to the texts above) and corrections of notes that became false
+EXTRA_TEXT = {
+    "C01": " Added: the snapping stage is now an exact Lean model (Model/SnapLoop.lean, tied to the real snap_traces and to the loop inside branches_and_nodes by stream S06-snappass); "
+           "C01_snap_stage_identity proves it is the identity (no repeat pass, no raise) on every map whose decidable quietMap holds, and the oracle evaluates quietMap on the clipped "
+           "pieces of every valid map of S01 (all quiet). The node-table and branch-label LOOPS are regenerated as well (C05_generated_*).",
+    "C04": " Added streams: mirror-image traces inside one bounding box; S04-stubs (stubs of 1.05-3 x snap at a host's tip must be branches: exact total length).",
+    "C05": " Added: the whole node_identity, the collection loop of node_identities_from_branches and the loop of get_branch_identities are regenerated (translator loops) and "
+           "C05_generated_node_table / C05_generated_branch_labels prove they compute exactly Topo.nodeTable / Topo.branchLabel for every branch list, under the stated laws of the "
+           "spatial-index parameters (QueryLaw, BoxLaw) -- so the theorems above are statements about regenerated code, not only about a hand model.",
+    "C06": " Added: exact Lean model of BOTH snapping stages, the candidate windows, the boundary filter and the repeat-until-stable loop (Model/SnapLoop.lean); theorems "
+           "C06_quiet_pass_identity / C06_quiet_loop_identity (nothing within the threshold => nothing moves, for any number of traces and either candidate order), C06_loop_bound, "
+           "C06_pass_keeps_rows, C06_moves_within_threshold; the loops of is_endpoint_close_to_boundary and snap_trace_to_another are regenerated and proved equal to the model "
+           "(C06_generated_*). Stream S06-snappass compares one real snap_traces pass and the real loop (recorder around snap_traces inside branches_and_nodes) with the model "
+           "coordinate for coordinate and decides C06's own words (boundary ends not snapped, far ends split nothing) on every disagreement.",
+    "C09": " Added: Validation._validate is regenerated and C09_generated_validate_step proves it equals the model step Tval.validateOne for every validator behaviour; "
+           "C09_empty_area covers the documented EMPTY TARGET AREA exit (repaired defect F23); S09 includes duplicate index labels and areas void of traces.",
+    "C10": " Added: the whole UnderlappingSnapValidator.validation_method (both loops, well-snapped skip, window, first hit, class attribute) is regenerated and proved equal to the "
+           "hand-written decision Spec.underlapVerdict (C10_generated_underlap_eq_spec); C10_underlap_silent_iff: a trace passes exactly when every end is well snapped or has no candidate "
+           "in (t, t*m). Stream S10-stacking sweeps the stacking window deterministically (alongside length x orientation x start x offsets to 1e7 x thresholds).",
+    "C12": " Added: determine_intersect and the pair loop of determine_crosscut_abutting_relationships are regenerated; C12_generated_determine_intersect (= Rel.intersectOf, all cases) and "
+           "C12_generated_rows (exactly one row per pair of sets that both contain traces, in combinations order, each from its own pair) hold for all inputs.",
+    "C13": " Added: C13_underlap_attribute over the regenerated stateful validator (a passing call leaves the class attribute untouched; verdict and written string never depend on its old "
+           "value); S13's pool has a ninth frame (multi-part lines that form node defects once merged).",
+    "C14": " Added stream S14-slivers (corner slivers of 0.5-4 x snap: all four routes must agree).",
+    "C16": " S16-validation now also runs user-supplied thresholds 0.1 and 0.001.",
+    "C17": " S17 adds the input with a CRS on the traces only and plain cold-then-warm repeats of crop / topology.",
+    "C18": " S18 adds reordered / filtered precursor grids (index labels not 0..n-1).",
+    "C20": " Added: the loops of group_gathered_subsamples and aggregate_chosen are regenerated; C20_generated_group (= Subs.group, hence the partition theorems) and C20_generated_aggregate "
+           "(per-column aggregator lookup afresh for every column, Area weights, fallback when the aggregator raises) hold for all inputs.",
+}
+NOTE_REPL = {
+    "C01": (" partial: the snapping pass being the identity on valid maps is not a theorem (no Lean model of simple_snap/insert_point yet); it is covered by S01 only.",
+            " partial: `valid => quiet` (the hypothesis of C01_snap_stage_identity) is evaluated by the oracle on every generated map, not proved in general; GEOS noding (NodingSpec) is sampled by S01 only."),
+    "C05": (" Hand-modelled, not verified: node collection order, the point query of the spatial index (assumed to return bit-identical ends), WKT-key injectivity.",
+            " Assumed (hypotheses of the refinement theorems, sampled by S05): the point query of the spatial index returns the positions of bit-identical ends (QueryLaw), the bounding-box query returns every node within the threshold (BoxLaw), WKT keys are injective."),
+}
+for _k, _v in EXTRA_TEXT.items():
+    CLAIMS[_k]["text"] += _v
+for _k, (_a, _b) in NOTE_REPL.items():
+    assert _a in CLAIMS[_k]["note"], _k
+    CLAIMS[_k]["note"] = CLAIMS[_k]["note"].replace(_a, _b)
+CLAIMS["C05"]["technique"] = "Lean 4 refinement theorems (regenerated loops = model) + theorems over the model + differential correspondence"
+CLAIMS["C06"]["technique"] = "Lean 4 theorems over regenerated guards and loops + exact Lean model of the snapping stage run against the real snap_traces / loop"
+
 checks, na = [], []
 for p in props:
     pid = p["id"]
